@@ -81,7 +81,9 @@ def file_output_edge_cases(ctx):
 TRAINED_LIST = ['dragon12', 'bob@gmail.com', 'alice@yahoo.com12', 'www.google.com', 'http://rockyou.com/1', 'monkey', '12', 'dragon', 'dragon',
                 'monkey7', 'Pass!', 'qwer1234', '1999love', '#1fan', '12', 'dragon12', 'carol@gmail.com', '12www.google.com',
                 # one segment text several times in one password
-                'abc12abc', 'abc12abc', 'abc12abc', '55555', '55555', '55555', '55555', '55555', '7x7x7']
+                'abc12abc', 'abc12abc', 'abc12abc', '55555', '55555', '55555', '55555', '55555', '7x7x7',
+                # a compound of three frequent words and, later, its two-word tail on its own and behind another word
+                ] + ['blue'] * 6 + ['cats'] * 9 + ['dogs'] * 9 + ['fish'] * 8 + ['bluecatsdogs', 'fish!', 'catsdogs', 'CatsDogs1', 'fishcatsdogs']
 
 
 def trained_ruleset_case(pws=None):
@@ -115,7 +117,10 @@ def trained_ruleset_case(pws=None):
     import train_util
     from collections import Counter as _Counter
     mw, _ = train_util.first_pass(pws)
-    tally = _Counter(lab for p_ in pws for _, lab in train_util.section_list_of(p_, mw))
+    # (every password is segmented by a copy of the trained detector that has answered nothing yet)
+    import pickle
+    pristine = pickle.dumps(mw)
+    tally = _Counter(lab for p_ in pws for _, lab in train_util.section_list_of(p_, pickle.loads(pristine)))
     tot = sum(tally.values())
     wantp = {lab: n / tot for lab, n in tally.items()}
     gotp = {ln.split('\t')[0]: float(ln.split('\t')[1]) for ln in open(os.path.join(rd, 'Prince', 'grammar.txt'), encoding='ascii').read().split('\n') if ln}
